@@ -571,7 +571,9 @@ class Queue(Greenlet):
                 self._check_ready(now)
             finally:
                 self.queued_lock.release()
-            self._wait_ready(now)
+            # Handing out the ready messages may have taken a while (bounded
+            # store pool): the time to sleep is counted from the present.
+            self._wait_ready(time.time())
 
 
 # vim:et:fdm=marker:sts=4:sw=4:ts=4
